@@ -93,6 +93,7 @@ def insertAt {α} (x : α) : Nat → List α → List α
 `sub list <prefix> <start> <stop> <errAt|-1> <names|->`
 `sub meminit <prefix>` · `sub memraw <mem op…>` · `sub mem <mem op…>` -/
 def drive (st : SubState) : List String → SubState × String
+  | "uploadid" :: _ => (st, "skip")   -- the view over an HTTP client whose upload IDs are URLs: judged by the oracle (F45)
   | "call" :: p :: m :: n1 :: n2 :: scope =>
     (st, match Hex.decodeTok p, table.find? (·.method == m), Hex.decodeTok n1, Hex.decodeTok n2, parseScope scope with
       | some p, some r, some n1, some n2, some sc =>
